@@ -622,6 +622,9 @@ def check_store(world):
             classify(world, 'stored-association-instances-differ-from-model', exp, alt, srt(got), namespace=ns)
 
 
+SPARSE_K = 4 if R.tier == 'quick' else 8
+
+
 def filter_tuples(world, mode, rnd, nsample):
     ac, rc, ro = world.universes()
     uni = (ac, rc, ro, ro)
@@ -633,7 +636,9 @@ def filter_tuples(world, mode, rnd, nsample):
             t = [None] * 4
             t[i] = v
             out.append(tuple(t))
-    if mode in ('pairs', 'pairs+'):
+    if mode == 'sparse':
+        out = out[:1] + rnd.sample(out[1:], min(SPARSE_K, len(out) - 1))
+    if mode == 'pairs':
         for i, j in itertools.combinations(range(4), 2):
             for v in uni[i][1:]:
                 for w in uni[j][1:]:
@@ -655,22 +660,29 @@ def filter_tuples(world, mode, rnd, nsample):
 
 def explore(world, mode, rnd, nsample=12, variants=2, node_sources_only=False, light_sources=(),
             light_refs=False):
-    """Check every source of the world. mode: 'full' | 'pairs' | 'singles' (+ nsample seeded deeper tuples)."""
+    """Check every source of the world. mode: 'full' | 'pairs' | 'singles' | 'sparse' (= no filter + SPARSE_K seeded
+    single filters, drawn per source) (+ nsample seeded deeper tuples)."""
     check_store(world)
     srcs = world.sources()
     tuples, uni = filter_tuples(world, mode, rnd, nsample)
     light, _ = filter_tuples(world, 'singles', rnd, 0)
     ref_tuples = list(itertools.product(uni[0], uni[2]))
+    all_tuples = list(tuples)
     for src in srcs:
         is_node = src[0][:4] == 'root'
         heavy = is_node and src[0] not in light_sources
         if node_sources_only and not is_node:
             continue
+        if mode == 'sparse' and heavy:
+            tuples, _ = filter_tuples(world, mode, rnd, nsample)
+            all_tuples.extend(tuples)
         tl = tuples if heavy else light
         vset = set([tl[0]] + rnd.sample(tl[1:], min(variants, len(tl) - 1))) if heavy else set()
         for flt in tl:
             check_assoc(world, src, flt, variants=flt in vset)
         rl = ref_tuples if heavy and not light_refs else [t for t in ref_tuples if t[0] is None or t[1] is None]
+        if mode == 'sparse':
+            rl = rl[:1] + rnd.sample(ref_tuples[1:], min(SPARSE_K, len(ref_tuples) - 1))
         rv = set([rl[0]] + rnd.sample(rl[1:], min(variants, len(rl) - 1))) if heavy else set()
         for flt in rl:
             check_refs(world, src, flt, variants=flt in rv)
@@ -683,7 +695,7 @@ def explore(world, mode, rnd, nsample=12, variants=2, node_sources_only=False, l
                 if got and w is not None and not set(got) <= set(w):
                     viol('filter-adds-results', steps=world.steps, source=src[0], op='ReferenceNames', filters=flt,
                          weaker=weaker)
-    check_symmetry(world, srcs, tuples)
+    check_symmetry(world, srcs, all_tuples)
     check_source_forms(world, srcs)
 
 
@@ -907,7 +919,7 @@ def class_level(rnd, quick):
     c = w.conn
     ac = [None] + sorted(c for c in PARENT if c[0] == 'A') + ['a_bIN', 'N_Base', 'A_Nope']
     rc = [None, 'N_Base', 'N_Sub', 'N_SubSub', 'N_Other', 'n_sUB', 'A_Bin', 'N_Nope']
-    ro = [None] + sorted(ROLE_TYPE) + ['aNTE', 'THIRD', 'Nope']
+    ro = [None] + sorted(ROLE_TYPE)[::2 if quick else 1] + ['aNTE', 'THIRD', 'Nope']
     uni = (ac, rc, ro, ro)
     tuples = [(None,) * 4]
     for i in range(4):
@@ -918,18 +930,18 @@ def class_level(rnd, quick):
     for i, j in itertools.combinations(range(4), 2):
         for v in uni[i][1:]:
             for x in uni[j][1:]:
-                if quick and (i, j) != (0, 1) and rnd.random() > 0.12:
+                if quick and (i, j) != (0, 1) and rnd.random() > 0.04:
                     continue
                 t = [None] * 4
                 t[i], t[j] = v, x
                 tuples.append(tuple(t))
     seen = set(tuples)
-    for _ in range(60 if quick else 1500):
+    for _ in range(30 if quick else 600):
         t = tuple(rnd.choice(u) for u in uni)
         if t not in seen:
             seen.add(t)
             tuples.append(t)
-    targets = sorted(PARENT) + ['n_sUBsUB', 'N_Nope']
+    targets = sorted(PARENT)[::2 if quick else 1] + ['n_sUBsUB', 'N_Nope']
 
     def cnames(r, tup):
         if r[0] != 'ok':
@@ -971,17 +983,17 @@ def class_level(rnd, quick):
                 class_refs(c, tgt, {k: v for k, v in (('ResultClass', rcv), ('Role', role)) if v is not None}, cnames)
 
 
-REFS_SEEN = set()
+REFS_SEEN = {}
 
 
 def class_refs(c, tgt, kw, cnames):
-    key = (tgt, tuple(sorted(kw.items())))
+    key = (tgt, kw.get('ResultClass'), kw.get('Role'))
     if key in REFS_SEEN:
         return
-    REFS_SEEN.add(key)
     R.case(('class-refs',) + key)
     n = cnames(call(c.ReferenceNames, tgt, **kw), False)
     f = cnames(call(c.References, tgt, **kw), True)
+    REFS_SEEN[key] = {x[0] for x in n[1]} if n[0] == 'ok' else None
     d = dict(target_class=tgt, **kw)
     if n[0] in ('exc', 'bad') or f[0] in ('exc', 'bad'):
         viol('class-level-references-raises-or-wrong-kind', observed=[repr(n)[:200], repr(f)[:200]], **d)
@@ -990,11 +1002,12 @@ def class_refs(c, tgt, kw, cnames):
     elif n[0] == 'ok':
         if any(not exists(x[0]) or x[1] != 'root/a' or x[2] != c.host for x in n[1]):
             viol('class-level-references-returns-unknown-class-or-wrong-namespace', names=repr(n)[:300], **d)
-        for drop in kw:
-            kw2 = {k: v for k, v in kw.items() if k != drop}
-            w = cnames(call(c.ReferenceNames, tgt, **kw2), False)
-            if w[0] == 'ok' and not {x[0] for x in n[1]} <= {x[0] for x in w[1]}:
+        for weaker in ((tgt, None, key[2]), (tgt, key[1], None)):
+            w = REFS_SEEN.get(weaker)
+            if w is not None and not REFS_SEEN[key] <= w:
                 viol('class-level-filter-adds-results', op='ReferenceNames', **d)
+    elif n[0] == 'cimerror' and exists(tgt) and (key[1] is None or exists(key[1])):
+        viol('class-level-references-refused', observed=repr(n), **d)
 
 
 # ---------------------------------------------------------------- main
@@ -1017,12 +1030,13 @@ def main():
     for w in null_worlds() + dangling_worlds() + imp_cross_worlds():
         explore(w, 'singles' if quick else 'pairs', rnd, nsample=10 if quick else 40, variants=1)
     mutation_sequences(rnd, quick)
-    for i in range(2 if quick else 14):
+    for i in range(2 if quick else 8):
         n = rnd.randint(6, 12)
         w = random_world('random/%d' % i, rnd, n, rnd.randint(n // 2, 2 * n), NSS[:rnd.randint(1, 3)])
-        explore(w, 'singles', rnd, nsample=25 if quick else 120, variants=1, node_sources_only=not quick)
+        explore(w, 'sparse' if quick else 'singles', rnd, nsample=6 if quick else 60, variants=1,
+                node_sources_only=quick, light_refs=True)
     w = random_world('random/30-nodes', rnd, 30, 45, NSS)
-    explore(w, 'singles', rnd, nsample=3 if quick else 60, variants=1, node_sources_only=True)
+    explore(w, 'sparse', rnd, nsample=2 if quick else 30, variants=0 if quick else 1, node_sources_only=True)
     class_level(rnd, quick)
     for vid in sorted(PENDING, key=lambda v: (v.startswith('known:'), v)):
         R.violation(vid, **PENDING[vid])
